@@ -1360,6 +1360,7 @@ void reb_simulation_rescale_var(struct reb_simulation* const r){
 
             vc->lrescale += log(scale);
             for (int i=0; i<N; i++){
+                particles[i].m /= scale; // Mass variations are part of the (linear) variational equations.
                 particles[i].x /= scale;
                 particles[i].y /= scale;
                 particles[i].z /= scale;
@@ -1370,6 +1371,26 @@ void reb_simulation_rescale_var(struct reb_simulation* const r){
 
             if (r->integrator == REB_INTEGRATOR_WHFAST && r->ri_whfast.safe_mode == 0){
                 r->ri_whfast.recalculate_coordinates_this_timestep = 1;
+            }
+            if (r->integrator == REB_INTEGRATOR_IAS15 && r->ri_ias15.N_allocated >= 3*(unsigned int)(vc->index+N)){
+                // IAS15 carries state from step to step: the compensated summation residuals of
+                // positions/velocities and the predicted b and e coefficients. All of it is linear
+                // in the variational particles' coordinates and needs to be rescaled with them.
+                struct reb_integrator_ias15* const ri_ias15 = &(r->ri_ias15);
+                struct reb_dp7* const dps[4] = {&(ri_ias15->b), &(ri_ias15->e), &(ri_ias15->br), &(ri_ias15->er)};
+                for (int k=3*vc->index; k<3*(vc->index+N); k++){
+                    ri_ias15->csx[k] /= scale;
+                    ri_ias15->csv[k] /= scale;
+                    for (int d=0; d<4; d++){
+                        dps[d]->p0[k] /= scale;
+                        dps[d]->p1[k] /= scale;
+                        dps[d]->p2[k] /= scale;
+                        dps[d]->p3[k] /= scale;
+                        dps[d]->p4[k] /= scale;
+                        dps[d]->p5[k] /= scale;
+                        dps[d]->p6[k] /= scale;
+                    }
+                }
             }
         }
     }
